@@ -94,6 +94,40 @@ func Build(s *Spec) (*signedexchange.Exchange, *signedexchange.Signer, error) {
 	return e, sg, nil
 }
 
+// BuildWithUsedSigner is Build, but the Signer object has ALREADY signed another exchange (of
+// format version prior, for another URL, validity URL, certificate URL and dates) before it is
+// pointed at s and signs the exchange under test: nothing the first use left in the object may
+// show in the second signature.
+func BuildWithUsedSigner(s *Spec, prior string) (*signedexchange.Exchange, *signedexchange.Signer, error) {
+	first := &Spec{Version: prior, URL: "https://a.example/used-signer", Method: "GET", Status: 200,
+		ResHeaders: []gen.HeaderKV{{Name: "Content-Type", Values: []string{"text/plain"}}}, PayloadLen: 33, PayloadTag: 0x05ED, RecordSize: 16,
+		Fixture: s.Fixture, Date: 1_500_000_000, Expires: 1_500_000_300, ValidityURL: "https://a.example/used-validity", CertURL: "https://cdn.example/used-cert"}
+	_, sg, err := Build(first)
+	if err != nil {
+		return nil, nil, fmt.Errorf("first use of the signer: %w", err)
+	}
+	cu, err := url.Parse(s.CertURL)
+	if err != nil {
+		return nil, nil, err
+	}
+	vu, err := url.Parse(s.ValidityURL)
+	if err != nil {
+		return nil, nil, err
+	}
+	sg.Date, sg.Expires, sg.CertUrl, sg.ValidityUrl = time.Unix(s.Date, 0), time.Unix(s.Expires, 0), cu, vu
+	if s.Mock {
+		sg.Algorithm = &signingalgorithm.MockSigningAlgorithm{}
+	}
+	e := New(s)
+	if err := e.MiEncodePayload(s.RecordSize); err != nil {
+		return nil, nil, fmt.Errorf("MiEncodePayload: %w", err)
+	}
+	if err := e.AddSignatureHeader(sg); err != nil {
+		return nil, nil, fmt.Errorf("AddSignatureHeader: %w", err)
+	}
+	return e, sg, nil
+}
+
 // ChainCBOR serialises a fixture's chain as application/cert-chain+cbor.
 func ChainCBOR(fixture int) []byte {
 	f := gen.Fixtures()[fixture]
